@@ -32,7 +32,7 @@ PROPS["C10"] = dict(
 PROPS["C07"] = dict(
     level="exploration",
     budget_s=dict(quick=90, thorough=600),
-    parts=[dict(name="grid", bin="C07", flavour="plain")],
+    parts=[dict(name="grid", bin="C07", flavour="plain"), dict(name="histories", bin="C07s", flavour="plain")],
     manifest=dict(
         engine="E2", design_ref="5 / C07",
         technique="exhaustive input grid on real dimensions of a real file vs. reference search over the axis coordinates",
@@ -40,12 +40,14 @@ PROPS["C07"] = dict(
              "axes with decimal and binary intervals and offsets, 8 tick vectors, 4 set and 3 data-frame axes), every sample index "
              "up to N (300 quick / 10000 thorough), the positions on / one ulp beside / between / below / beyond the coordinates, all "
              "five rules, and all start/end pairs over blocks of neighbouring candidates in both range modes, through the scalar, pair "
-             "and vector overloads and util::positionToIndex. Complete over that grid; says nothing about axes outside the family.",
+             "and vector overloads and util::positionToIndex. Complete over that grid; says nothing about axes outside the family. Part 2 (histories): every sequence "
+             "up to depth 3/4 of axis-changing operations (ticks, interval, offset, labels, frame rows, data of an aliased array; through either of two live handles or through "
+             "the array; REOPEN) with the conversion grid evaluated after the last step through the handle returned by append, a second earlier handle and a fresh one.",
         note="Reference = binary search over the coordinates the library itself reports (checked to equal offset+i*interval / the ticks "
              "given and to be strictly ascending); exact double comparisons. Axes that are not strictly ascending in double are skipped "
              "and counted."),
     evidence=dict(
-        keys=dict(evaluations=("sum", [("count", "scalar_calls"), ("count", "pair_calls"), ("count", "roundtrips")]),
+        keys=dict(evaluations=("sum", [("count", "scalar_calls"), ("count", "pair_calls"), ("count", "roundtrips"), ("count", "conversions")]),
                   distinct_nontrivial=("distinct", "outcomes")),
         rule="grid: axis family x sample index 0..N x {x_i, x_i-1ulp, x_i+1ulp, midpoint, below axis, beyond axis} x 5 PositionMatch rules; "
              "start/end pairs = all ordered pairs of the candidates around three anchor blocks x 2 RangeMatch modes; "
@@ -397,5 +399,29 @@ PROPS["C16"] = dict(
         rule="program = one misuse call (x {ReadWrite, ReadOnly} world) or an ordered pair of misuse calls on the ReadWrite world; distinct_nontrivial = distinct (call, outcome class: returns / exception type) pairs.",
         bound=dict(quick="bound 1: all calls x 2 modes; bound 2: 1/16 sub-grid of ordered pairs + stateful-first pairs", thorough="bound 2: all ordered pairs"),
         assumptions=["what ASan, UBSan, _GLIBCXX_ASSERTIONS, BOOST_ENABLE_ASSERT_HANDLER and the HDF5 boundary shim can see", "libhdf5 itself is not instrumented"],
+    ),
+)
+
+PROPS["C13"] = dict(
+    level="model_checking",
+    budget_s=dict(quick=180, thorough=1800),
+    parts=[dict(name="descriptors", bin="C13", flavour="plain")],
+    manifest=dict(
+        engine="E1", design_ref="5 / C13",
+        technique="exhaustive DFS over append/modify/delete/reopen sequences per array configuration on the real library, replayed on fresh files, against an ordered descriptor-list reference model; five access paths compared after every trace",
+        text="For 9 array configurations (rank 1 x {Double, Int32, UInt8, String, Bool}, rank 2-3 x {Double, Int32}) every sequence up to depth 3 (thorough: core letters depth 4) over "
+             "24-80 letters (append set/sampled/range/alias/data-frame with legal and illegal arguments, deprecated create*Dimension, all setters and none-setters, array "
+             "unit/label/setData/dataExtent/appendData, deleteDimensions, REOPEN) is replayed on a fresh file. Steps alternate between handles kept alive since creation and "
+             "fresh ones; kept handles are read after every step; after the last step kept handles, getDimension(i), dimensions(), a fresh array handle and a ReadOnly reopen are "
+             "compared with the model (count, kinds, every attribute, none below 1 and above n). In every state ticks are sorted and intervals positive; illegal calls either throw "
+             "and change nothing or store a legal state; alias dimensions mirror the array in both directions and their preconditions are enforced.",
+        note="Unsorted data written through the ARRAY of an alias is not asserted under the sortedness clause (mirroring wins); unsorted ticks written through the alias dimension are."),
+    evidence=dict(
+        keys=dict(states=("distinct", "states"), transitions=("count", "transitions"), traces_validated_against_impl=("count", "traces"),
+                  evaluations=("count", "getter_calls"), distinct_nontrivial=("distinct", "outcomes")),
+        rule="DFS with replay on a fresh file per array configuration; each prefix is a trace, not extended past a step that threw or after which something is wrong; states = distinct "
+             "(configuration, descriptor list with all attributes, array label/unit/data, fresh-session flag); distinct_nontrivial = distinct (configuration, operation, input class, step class, outcome).",
+        bound=dict(quick="D=3, Dc=3", thorough="D=3 with larger alphabets, Dc=4 for rank <= 2"),
+        assumptions=_E1_ASSUME,
     ),
 )
